@@ -96,7 +96,7 @@ func c30Value(c *core.Ctx, kind string, r *rand.Rand, mode, arg int, caseID stri
 	input := map[string]any{"kind": kind, "mode": modeName(mode, arg), "value": abbreviate(orig)}
 	var enc []byte
 	if pi := core.Guard(func() { enc = v.Marshal() }); pi != nil {
-		c.Violation("roundtrip:"+kind+":marshal-"+pi.Key, pi.Value+"\n"+pi.Stack, caseID, input)
+		c.Violation("roundtrip:"+kind+":marshal-"+panicKey(pi), pi.Value+"\n"+pi.Stack, caseID, input)
 		return
 	}
 	input["encoding"] = hx(enc)
@@ -104,7 +104,7 @@ func c30Value(c *core.Ctx, kind string, r *rand.Rand, mode, arg int, caseID stri
 	recv := ztls.VerifNewMsg(kind)
 	var ok bool
 	if pi := core.Guard(func() { ok = recv.Unmarshal(enc) }); pi != nil {
-		c.Violation("roundtrip:"+kind+":unmarshal-"+pi.Key, pi.Value+"\n"+pi.Stack, caseID, input)
+		c.Violation("roundtrip:"+kind+":unmarshal-"+panicKey(pi), pi.Value+"\n"+pi.Stack, caseID, input)
 		return
 	}
 	if !ok {
@@ -154,7 +154,7 @@ func c30Value(c *core.Ctx, kind string, r *rand.Rand, mode, arg int, caseID stri
 		var acc bool
 		if pi := core.Guard(func() { acc = rc.Unmarshal(enc[:p]) }); pi != nil {
 			in := map[string]any{"kind": kind, "encoding": hx(enc), "prefix_len": p}
-			c.Violation("prefix:"+kind+":"+pi.Key, fmt.Sprintf("unmarshal of the %d-byte prefix of a %d-byte %s panics: %s", p, len(enc), kind, pi.Value), caseID, in)
+			c.Violation("prefix:"+kind+":"+panicKey(pi), fmt.Sprintf("unmarshal of the %d-byte prefix of a %d-byte %s panics: %s", p, len(enc), kind, pi.Value), caseID, in)
 			return
 		}
 		c.Count("prefixes_tried", 1)
